@@ -373,7 +373,22 @@ func checkC12(c c12Case) verdict {
 				return bad(true, labels, "step %d ValidateOCRA: %v", i, e)
 			}
 		case "OCRAInput.Validate":
+			// the input struct itself is the caller's too: after the check its five fields are the very slices they were (same
+			// array, length, capacity, nil-ness) — a check that "normalises" its receiver hands padded copies back
+			hdr := func(x otp.OCRAInput) string {
+				return fmt.Sprintf("%p/%d/%d/%v %p/%d/%d/%v %p/%d/%d/%v %p/%d/%d/%v %p/%d/%d/%v", x.Counter, len(x.Counter), cap(x.Counter), x.Counter == nil, x.Challenge, len(x.Challenge), cap(x.Challenge), x.Challenge == nil,
+					x.Password, len(x.Password), cap(x.Password), x.Password == nil, x.SessionInfo, len(x.SessionInfo), cap(x.SessionInfo), x.SessionInfo == nil, x.Timestamp, len(x.Timestamp), cap(x.Timestamp), x.Timestamp == nil)
+			}
+			h0 := hdr(in)
 			_ = in.Validate(lc)
+			if h1 := hdr(in); h1 != h0 {
+				return bad(true, labels, "step %d: OCRAInput.Validate changed the input struct it was called on (array/len/cap/nil of counter, challenge, password, session, timestamp): %s -> %s", i, h0, h1)
+			}
+			pin := &in
+			_ = pin.Validate(lc)
+			if h1 := hdr(in); h1 != h0 {
+				return bad(true, labels, "step %d: OCRAInput.Validate through a pointer changed the input struct: %s -> %s", i, h0, h1)
+			}
 		case "GenerateHOTP":
 			if code, err := otp.GenerateHOTP(c12Secret, st.U, param); err == nil {
 				keep(code, "HOTP code")
